@@ -4104,7 +4104,11 @@ class ISLaUnparser:
             )
 
     def _unparse_match_expr(self, match_expr: BindExpression | None) -> str:
-        return "" if match_expr is None else f'="{match_expr}"'
+        return (
+            ""
+            if match_expr is None
+            else '="' + str(match_expr).replace('"', r"\"") + '"'
+        )
 
     def _unparse_quantified_formula(self, formula: QuantifiedFormula) -> List[str]:
         qfr = "forall" if isinstance(formula, ForallFormula) else "exists"
